@@ -44,8 +44,9 @@ type sctpLine struct {
 	Note      string    `json:"note"`
 }
 
-// wire stream number of model stream s: spread over the 16 streams incl. 0 and 15
-func wireStream(s int) uint16 { return []uint16{0, 15, 7, 1, 3, 9, 2, 14}[(s-1)%8] }
+// wire stream number of model stream s: 0, the last of the 16 streams the library itself negotiates,
+// and streams beyond them (an association may have up to 65536)
+func wireStream(s int) uint16 { return []uint16{0, 15, 16, 1, 40, 9, 65535, 14}[(s-1)%8] }
 
 func sctpStreamBytes(s int, sizes []int) []byte {
 	var b []byte
@@ -299,7 +300,7 @@ func SCTPAnswer(a Args) error {
 	}
 	id := 0
 	ids := []uint32{0, 1, 1 << 31, 0xffffffff}
-	for _, stream := range []uint16{0, 1, 7, 15} {
+	for _, stream := range []uint16{0, 1, 7, 15, 16, 40, 65535} {
 		as := sctpmem.New()
 		mux := diam.NewServeMux()
 		done := make(chan struct{}, 16)
@@ -349,7 +350,7 @@ func SCTPAnswer(a Args) error {
 	}
 	// deferred answers: the request arrives on stream s; it is answered - with retries, the first write
 	// attempt failing temporarily - only after a message on another stream has been read
-	for _, stream := range []uint16{0, 1, 7, 15} {
+	for _, stream := range []uint16{0, 1, 7, 15, 16, 40, 65535} {
 		as := sctpmem.New()
 		as.FailWrite = func(k int) bool { return k%2 == 1 }
 		mux := diam.NewServeMux()
@@ -375,7 +376,7 @@ func SCTPAnswer(a Args) error {
 				as.Feed(stream, hd.Serialize())
 				as.WaitReaderBlocked(time.Second)
 				tr := diam.Header{Version: 1, MessageLength: 20, CommandFlags: 0x90, CommandCode: abs.VCmd, ApplicationID: abs.VApp, HopByHopID: 77, EndToEndID: 77}
-				as.Feed((stream+5)%16, tr.Serialize())
+				as.Feed(stream+5, tr.Serialize()) // (wraps around for 65535)
 				select {
 				case <-done:
 				case <-time.After(3 * time.Second):
